@@ -296,8 +296,18 @@ func (mc *monitoredConn) stopMonitoring() {
 func (gme *GCPMultiEndpoint) UpdateMultiEndpoints(meOpts *GCPMultiEndpointOptions) error {
 	gme.mu.Lock()
 	defer gme.mu.Unlock()
+	// Validate all options before changing anything, so that a rejected
+	// update leaves the pools and the MultiEndpoints exactly as they were.
 	if _, ok := meOpts.MultiEndpoints[meOpts.Default]; !ok {
 		return fmt.Errorf("default MultiEndpoint %q missing options", meOpts.Default)
+	}
+	for name, meo := range meOpts.MultiEndpoints {
+		if meo == nil {
+			return fmt.Errorf("MultiEndpoint %q missing options", name)
+		}
+		if len(meo.Endpoints) == 0 {
+			return fmt.Errorf("MultiEndpoint %q: endpoints list cannot be empty", name)
+		}
 	}
 
 	validPools := make(map[string]bool)
@@ -325,8 +335,10 @@ func (gme *GCPMultiEndpoint) UpdateMultiEndpoints(meOpts *GCPMultiEndpointOption
 	// Add new multi-endpoints and update existing.
 	for name, meo := range meOpts.MultiEndpoints {
 		if me, ok := gme.mes[name]; ok {
-			// Updating existing MultiEndpoint.
-			me.SetEndpoints(meo.Endpoints)
+			// Updating existing MultiEndpoint. The list was validated above.
+			if err := me.SetEndpoints(meo.Endpoints); err != nil {
+				return err
+			}
 			continue
 		}
 
